@@ -798,6 +798,11 @@ class Splicer:
                 mm = ms[0]
                 s0 = b0 + len(txt[:mm.start()].encode())
                 e0 = b0 + len(txt[:mm.end()].encode())
+                if o.get('captures'):
+                    used = captured_names(o['captures'], mm.group(0))
+                    o = dict(o)
+                    o['sig'] = o['sig'].replace('@CAPTURES@', ''.join('%s: %s, ' % (n, t) for (n, t, a) in used))
+                    o['call'] = o['call'].replace('@CAPTURES@', ''.join('%s, ' % a for (n, t, a) in used))
                 if o.get('move'):
                     # R14 as a move of pieces (the outlined text may contain a closure that R15 lifts out of it)
                     oid = '%s#outline%d' % (fnkey, oi)
